@@ -7,6 +7,8 @@ EXTENDS OrbitObject, Json
 MCKeyNames == <<"base", "fwd", "tol">>
 \* steps x (method, order): two values per parameter
 MCProps == {<<"s1", "fixed", "o4">>, <<"s2", "fixed", "o4">>, <<"s1", "fixed", "o6">>, <<"s2", "adaptive", "o8">>}
+MCExtraPeriods == {<<"T", "tight">>}
+MCNoExtraPeriods == {}
 MCPropsSmall == {<<"s1", "fixed", "o4">>, <<"s2", "fixed", "o4">>}
 
 \* hist is bookkeeping only; states are identified by everything else
